@@ -301,6 +301,12 @@ def flavours(tier="quick"):
         suite=CS.TLS_AES_256_GCM_SHA384)
     add("TLS1.3-PSK", version=(3, 4), flavour="psk",
         suite=CS.TLS_AES_128_GCM_SHA256)
+    # the client offers a PSK the server does not have: certificate
+    # authentication although pre_shared_key was in the ClientHello
+    add("TLS1.3-PSK-declined", version=(3, 4),
+        suite=CS.TLS_AES_128_GCM_SHA256,
+        cset={"pskConfigs": [(b"not-known-to-the-server", b"\x33" * 32,
+                              "sha256")]})
     # flights fragmented into many small records (both directions)
     add("TLS1.3-RSA-clientauth-rsl64", version=(3, 4), req_cert=True,
         client_cred="c_rsa", suite=CS.TLS_AES_128_GCM_SHA256,
